@@ -25,6 +25,7 @@ func runC15(w *World, c *Check) {
 	c.Rule("C15.layout", "the ccache reader follows the MIT format field by field for versions 1–4 and stores each value into the field the format names", 40)
 	c.Rule("C15.endian", "native byte order for versions 1 and 2, big-endian for 3 and 4", 1)
 	c.Rule("C15.accessors", "look-up by server principal; configuration entries (X-CACHECONF) filtered; client identity from the default principal", 5)
+	c.Rule("C15.fresh", "the list GetEntries returns is built in fresh storage (it does not overwrite the cache's own credentials); every ticket decoded in a loop is decoded into a fresh value (absent OPTIONAL fields are not inherited from the previous ticket)", 2)
 	c.Rule("C15.client", "a client built from a ccache takes the TGT of the default realm and pairs every ticket with its own key and times", 9)
 
 	src := "MIT ccache file format"
@@ -204,5 +205,97 @@ func runC15(w *World, c *Check) {
 			}
 		}
 		c.Decide(okT, "C15.client", fk, "tgt-bytes", w.Pos(fn.Pos()), "the session's TGT is decoded from that credential's ticket bytes", "no Ticket.Unmarshal of the TGT credential's Ticket")
+	}
+	ruleFreshStorage(w, c, "C15.fresh")
+}
+
+// ruleFreshStorage: (a) the slice CCache.GetEntries returns grows from a fresh make/nil base, never
+// from a re-slice of the receiver's own Credentials (filtering in place rewrites the cache);
+// (b) in NewFromCCache, and anywhere else in the credentials/client packages, an Unmarshal called
+// inside a loop decodes into a variable allocated inside that loop: the ASN.1 decoder leaves absent
+// OPTIONAL fields untouched, so a variable shared across iterations leaks one ticket's fields into
+// the next.
+func ruleFreshStorage(w *World, c *Check, rule string) {
+	if fn := w.Func("credentials.(*CCache).GetEntries"); fn == nil {
+		c.Missing(rule, "credentials.(*CCache).GetEntries")
+	} else {
+		fa := NewFuncAn(w, fn)
+		var leaves []ssa.Value
+		seen := map[ssa.Value]bool{}
+		var walk func(v ssa.Value)
+		walk = func(v ssa.Value) {
+			if seen[v] {
+				return
+			}
+			seen[v] = true
+			switch x := v.(type) {
+			case *ssa.Phi:
+				for _, e := range x.Edges {
+					walk(e)
+				}
+			case *ssa.Call:
+				if bi, ok := x.Call.Value.(*ssa.Builtin); ok && bi.Name() == "append" {
+					walk(x.Call.Args[0])
+					return
+				}
+				leaves = append(leaves, v)
+			case *ssa.Slice:
+				leaves = append(leaves, v)
+			default:
+				leaves = append(leaves, v)
+			}
+		}
+		for _, b := range fn.Blocks {
+			if ret, ok := lastInstr(b).(*ssa.Return); ok && len(ret.Results) == 1 {
+				walk(ret.Results[0])
+			}
+		}
+		ok := len(leaves) > 0
+		var bad []string
+		for _, l := range leaves {
+			switch x := l.(type) {
+			case *ssa.MakeSlice:
+			case *ssa.Const:
+				if x.Value != nil {
+					ok = false
+				}
+			case *ssa.Slice:
+				// make with constant size: a slice of a fresh local array
+				if _, isAlloc := x.X.(*ssa.Alloc); !isAlloc {
+					ok = false
+					bad = append(bad, fa.R.R(l))
+				}
+			default:
+				ok = false
+				bad = append(bad, fa.R.R(l))
+			}
+		}
+		c.Decide(ok, rule, FuncKey(fn), "fresh-result", w.Pos(fn.Pos()), "the returned list grows from a fresh make()/nil slice", fmt.Sprintf("it grows from %v: appending overwrites the storage of the cache's own list", bad))
+	}
+	n := 0
+	for _, fn := range w.ModuleFuncs() {
+		k := FuncKey(fn)
+		if !(strings.HasPrefix(k, "client.") || strings.HasPrefix(k, "credentials.")) {
+			continue
+		}
+		fa := NewFuncAn(w, fn)
+		for _, ci := range fa.Calls(`.*\.\(\*\w+\)\.Unmarshal`) {
+			call, ok := ci.(*ssa.Call)
+			if !ok || len(call.Call.Args) == 0 {
+				continue
+			}
+			hdr := loopHeaderOf(call.Block())
+			if hdr == nil {
+				continue
+			}
+			n++
+			recv := call.Call.Args[0]
+			al, isAlloc := recv.(*ssa.Alloc)
+			fresh := isAlloc && loopHeaderOf(al.Block()) != nil && (al.Block() == hdr || hdr.Dominates(al.Block()))
+			c.Decide(fresh, rule, k, "fresh-decode-target:"+fa.R.R(recv), w.Pos(InstrPos(call)), "a value decoded inside a loop is decoded into a variable of that iteration", "the target "+fa.R.R(recv)+" is allocated outside the loop: fields absent from one encoding keep the previous iteration's values")
+		}
+	}
+	if n == 0 {
+		c.Fail(rule, "client.NewFromCCache", "fresh-decode-target", "-", "NewFromCCache decodes each cached ticket in its loop", "no Unmarshal call inside a loop found in the client and credentials packages")
 	}
 }
